@@ -93,22 +93,61 @@ def strategy(tier):
     return cases(tier)
 
 
-def f18_allowance(a, b, cols, gpo, tgpe):
-    """extra cost kalign may charge for OPT's terminal gaps that lie in the longer sequence"""
-    import math
+def _crossings(n, lo_run, hi_run):
+    """number of Hirschberg split rows that fall strictly inside the gap run [lo_run, hi_run) of the row sequence 0..n"""
+    lo, hi, c = 0, n, 0
+    for _ in range(64):
+        if hi - lo < 2:
+            break
+        mid = lo + (hi - lo) // 2
+        if lo_run < mid < hi_run:
+            c += 1
+            if lo_run <= lo:      # leading run: the rows above the split are all gap rows; go on below it
+                lo = mid
+            else:
+                hi = mid
+        elif mid >= hi_run:
+            hi = mid
+        else:
+            lo = mid
+        if not (lo < hi_run and hi > lo_run) or (lo_run <= lo and hi <= hi_run):
+            break
+    return c
+
+
+def terminal_profile(a, b, cols, gpo, tgpe, k=1, l=1):
+    """(always, maybe): penalty every terminal gap pays beyond L*tgpe for certain (row-side gaps: the closing gpo), and
+    the further amount kalign *may* charge for gaps on the column side of the final merge (F18): the closing gpo plus one
+    tgpe per Hirschberg split the run crosses (+1 slack).  The column side follows do_align: seq-seq and profile-profile put
+    the longer one on the columns (the second on a tie), seq-profile always puts the single sequence there."""
     first = cols.index(0)
     last = len(cols) - 1 - cols[::-1].index(0)
-    n = min(len(a), len(b))
-    per = gpo + (math.ceil(math.log2(max(2, n))) + 1) * tgpe
-    tot = 0.0
-    for run in (cols[:first], cols[last + 1:]):
+    if (k > 1) != (l > 1):
+        col_a, col_b = (k == 1), (l == 1)
+        nrows = len(b) if col_a else len(a)
+    else:
+        col_a, col_b = len(a) >= len(b), len(b) >= len(a)
+        nrows = len(b) if (col_a and not col_b) else len(a) if (col_b and not col_a) else len(a)
+    always, maybe = 0.0, 0.0
+    for run, leading in ((cols[:first], True), (cols[last + 1:], False)):
         if not run:
             continue
         code = run[0]              # 1 = gap in a, 2 = gap in b
-        in_longer = (code == 1 and len(a) >= len(b)) or (code == 2 and len(b) >= len(a))
-        if in_longer:
-            tot += per
-    return tot
+        col_side = (code == 1 and col_a) or (code == 2 and col_b)
+        row_side = (code == 1 and not col_a) or (code == 2 and not col_b)
+        if col_side:
+            L = len(run)
+            c = _crossings(nrows, 0, L) if leading else _crossings(nrows, nrows - L, nrows)
+            maybe += gpo + (c + 1) * tgpe
+            if row_side is False and (col_a and col_b):
+                pass
+        else:
+            always += gpo
+    return always, maybe
+
+
+def cols_of(ra, rb):
+    return [0 if (x != "-" and y != "-") else (1 if x == "-" else 2) for x, y in zip(ra, rb)]
 
 
 def check(case):
@@ -164,10 +203,19 @@ def check(case):
     from vlib.oracle import strip_common_gap_columns
     got = strip_common_gap_columns([arows[0], brows[0]])
     if got[0] != want_a or got[1] != want_b:
-        # F18 signature: the disagreement disappears when terminal gaps in the longer sequence (the shorter one overhangs)
-        # may cost up to gpo + (ceil(log2 n)+1)*tgpe more than L*tgpe (kalign charges them inconsistently, see DESIGN.md)
-        allow = f18_allowance(a, b, cert["cols"], gpo, tgpe)
-        fid = "F18" if (allow > 0 and cert["m_diff"] - allow <= need) else None
+        # F18 signature: kalign's own alignment K can be explained by the inconsistent charging of terminal gaps on the
+        # column side (see DESIGN.md section 9): under the charging most favourable to K and least favourable to OPT, K is
+        # not worse than OPT.
+        s_opt = dporacle.score_alignment(want_a, want_b, kind, setn, gpo, gpe, tgpe, 0.0)
+        s_k = dporacle.score_alignment(got[0], got[1], kind, setn, gpo, gpe, tgpe, 0.0)
+        fid = None
+        allow = 0.0
+        if s_k is not None and s_opt is not None:
+            alw_o, may_o = terminal_profile(a, b, cert["cols"], gpo, tgpe, k, l)
+            alw_k, may_k = terminal_profile(a, b, cols_of(got[0], got[1]), gpo, tgpe, k, l)
+            allow = may_o
+            if may_o > 0 and (s_k - alw_k) + need >= (s_opt - alw_o - may_o):
+                fid = "F18"
         return engine.violation({"what": "kalign's alignment differs from the certified unique optimum",
                                  "kalign": [g[:200] for g in got], "optimum": [want_a[:200], want_b[:200]],
                                  "opt_score": cert["opt"], "margin_same": cert["m_same"], "margin_diff": cert["m_diff"], "need": need,
